@@ -233,6 +233,19 @@ func runC19InBubble(c c19Case) (out kit.Outcome) {
 	}
 	// a longer life: enough successful, measurable releases for the pool's sampling window to close
 	// (several times); the pool must keep serving
+	// (pools of two or more: one long-running caller keeps its token all the while, so the windows close while a
+	// token is held; afterwards the pool must still count it)
+	var long *vtCaller
+	if limit >= 2 {
+		long = w.newCaller("a", 0, 0)
+		w.start(long)
+		synctest.Wait()
+		if !long.Done || !long.OK {
+			w.unwind(2 * time.Second)
+			w.flush()
+			return kit.Viol(kind+":end-readmit", "the idle pool (limit %d) did not admit a caller", limit)
+		}
+	}
 	for i := 0; i < 26; i++ {
 		cl := w.newCaller("a", 0, 0)
 		w.start(cl)
@@ -240,11 +253,45 @@ func runC19InBubble(c c19Case) (out kit.Outcome) {
 		if !cl.Done || !cl.OK {
 			w.unwind(2 * time.Second)
 			w.flush()
-			return kit.Viol(kind+":stops-serving", "after %d successful acquire/hold/release cycles the pool did not admit the next caller although nobody holds a token", i)
+			return kit.Viol(kind+":stops-serving", "after %d successful acquire/hold/release cycles the pool did not admit the next caller although a unit is free", i)
 		}
 		time.Sleep(time.Millisecond)
 		w.release(cl, 0)
 		synctest.Wait()
+	}
+	if long != nil {
+		var fresh []*vtCaller
+		grantedNow := 0
+		for i := 0; i < limit; i++ {
+			cl := w.newCaller("a", 0, 1)
+			w.start(cl)
+			synctest.Wait()
+			if cl.Done && cl.OK {
+				grantedNow++
+			}
+			fresh = append(fresh, cl)
+		}
+		if grantedNow != limit-1 {
+			w.unwind(time.Duration(c.Stack.TimeoutMs)*time.Millisecond + 2*time.Second)
+			w.flush()
+			sig := ":over-limit-after-windows"
+			if grantedNow < limit-1 {
+				sig = ":stops-serving"
+			}
+			return kit.Viol(kind+sig, "one caller has held its token while 26 others came and went (sampling windows closed meanwhile); of %d fresh callers arriving now %d were granted at once, the pool of %d has exactly %d free", limit, grantedNow, limit, limit-1)
+		}
+		w.release(long, 0)
+		synctest.Wait()
+		for _, cl := range fresh {
+			if cl.Done && cl.OK {
+				w.release(cl, 1)
+				synctest.Wait()
+			}
+		}
+		if msg := w.unwind(time.Duration(c.Stack.TimeoutMs)*time.Millisecond + 2*time.Second); msg != "" {
+			w.flush()
+			return kit.Viol(kind+":stuck", "%s", msg)
+		}
 	}
 	// a second wave: limit+backlog callers at one instant must all be admitted or queued and then served
 	if c.Stack.Ordering != "random" {
